@@ -435,7 +435,7 @@ func (in *interp) render(fr *frame, v value, depth int) string {
 		if depth < 2 {
 			// error / Stringer
 			for _, m := range []string{"Error", "String"} {
-				if f := in.prog.LookupMethod(x.t, nil, m); f != nil && f.Signature.Params().Len() == 0 && f.Signature.Results().Len() == 1 && isString(f.Signature.Results().At(0).Type()) {
+				if f := in.findMethod(x.t, m); f != nil && f.Signature.Params().Len() == 0 && f.Signature.Results().Len() == 1 && isString(f.Signature.Results().At(0).Type()) {
 					if in.fmtCalls {
 						r := in.tryCall(fr, f, []value{x.v})
 						if s, ok := r.(string); ok {
@@ -473,6 +473,15 @@ func (in *interp) render(fr *frame, v value, depth int) string {
 		return "<nil>"
 	}
 	return fmt.Sprintf("<%T>", v)
+}
+
+// findMethod returns the exported method name of t, or nil.
+func (in *interp) findMethod(t types.Type, name string) *ssa.Function {
+	sel := in.prog.MethodSets.MethodSet(t).Lookup(nil, name)
+	if sel == nil {
+		return nil
+	}
+	return in.prog.MethodValue(sel)
 }
 
 func (in *interp) tryCall(fr *frame, f *ssa.Function, args []value) (res value) {
@@ -684,6 +693,14 @@ func (in *interp) harnessAPI(fr *frame, name string, args []value) (value, bool)
 			out[b] = r
 		}
 		return out, true
+	case "vImplies":
+		return ts.Or(ts.Not(in.asTerm(args[0], "vImplies")), in.asTerm(args[1], "vImplies")), true
+	case "vAnd":
+		return ts.And(in.asTerm(args[0], "vAnd"), in.asTerm(args[1], "vAnd")), true
+	case "vOr":
+		return ts.Or(in.asTerm(args[0], "vOr"), in.asTerm(args[1], "vOr")), true
+	case "vIteInt64":
+		return ts.Ite(in.asTerm(args[0], "vIte"), in.asTerm(args[1], "vIte"), in.asTerm(args[2], "vIte")), true
 	case "vStubCalls":
 		// number of calls so far on this path of by-name stubbed functions whose name contains the argument
 		sub := goString(fr, args[0])
@@ -926,6 +943,33 @@ func (in *interp) runStub(fr *frame, fi *fnInfo, args []value) value {
 			fmt.Sscan(parts[1], &n)
 		}
 		return mk(func(t types.Type, i int) value { return in.freshOfType(t, "stub."+fi.name, n) })
+	case "inj":
+		// injective function of the arguments: a concrete canonical rendering when they are
+		// concrete, otherwise an injective UF
+		var sb strings.Builder
+		var terms []*Term
+		for _, a := range args {
+			in.flatten(a, &sb, &terms, 0)
+		}
+		allc := true
+		for _, t := range terms {
+			if !t.IsConst() {
+				allc = false
+				break
+			}
+		}
+		if allc {
+			for _, t := range terms {
+				fmt.Fprintf(&sb, "%x.", t.Big())
+			}
+			out := []value{}
+			for _, c := range []byte(sb.String()) {
+				out = append(out, in.ts.BV(uint64(c), 8))
+			}
+			return out
+		}
+		parts[0] = "ufinj"
+		fallthrough
 	case "uf", "ufinj":
 		n := 20
 		if len(parts) > 1 {
@@ -962,7 +1006,7 @@ func (in *interp) runStub(fr *frame, fi *fnInfo, args []value) value {
 		if !ok || w.t == nil {
 			in.unsupported("ufwrite: writer is not an interface value")
 		}
-		wf := in.prog.LookupMethod(w.t, nil, "Write")
+		wf := in.findMethod(w.t, "Write")
 		if wf == nil {
 			in.unsupported("ufwrite: writer has no Write method")
 		}
